@@ -30,7 +30,7 @@ CHECKS = {
         "(those two clauses are decided by the oracle on generated tissues, not by a theorem: they need planarity). own_cells is proved to be exactly two cells for interfaces with an interior point (under the planarity fact that the middle vertex lies in at most two cells) and for two-point interfaces whose mesh edge lies in exactly two cells' cycles (after the repair D30); the square lattice with a missing cell (D27) and the lens cell are machine-checked witnesses.",
    design_ref="DESIGN.md §7 C08",
    technique="Lean 4 theorems over an executable list model + exact differential check against forsys.frames.Frame",
-   note=BASE_NOTE + " own_cells-has-two-cells and lookup-by-cells are listed as pending obligations in the evidence."),
+   note=BASE_NOTE + " own_cells-has-two-cells (planarity hypotheses) is listed as a pending obligation in the evidence; lookup-by-cells became a theorem in session 5 (bigEdgeByCells_finds)."),
  "C09": dict(
    category="proof",
    text="`Mesh.Consistent` is the property's five clauses as a decidable predicate. Theorems: the constructor pattern every parser uses "
